@@ -704,6 +704,32 @@ func TestC17(t *testing.T) {
 		hh.Sub(h, "shared-"+mode, h.N(8000, 40000), func(rt *rapid.T) c17Shared { return genShared(rt, mode) }, propC17Shared)
 	}
 	hh.Enumerate(h, "coercer-locality", c17CoercerCells, propC17Coercer)
+	// the same clause over generated schemas: about a third of the nodes of every kind (string, numbers, bool, time,
+	// slice; also below pointers) carry their own coercer, the others keep the default coercion; inputs of every
+	// representation, including values that already have the destination's type
+	ccfg := model.DefaultCfg("parse")
+	ccfg.PCoercer, ccfg.PPost, ccfg.PJunk, ccfg.PCatch = 0.35, 0, 0, 0.05
+	ccfg.PVary, ccfg.PAbsent, ccfg.PTestSat, ccfg.PLight = 0.2, 0.1, 0.95, 0.4
+	hh.Sub(h, "coercer-generated", h.N(6000, 40000), func(rt *rapid.T) model.Case { return model.GenCase(rt, ccfg) }, func(c model.Case) hh.Verdict {
+		_, bad, skip := conform(c, 1, true, true, false)
+		if skip != "" {
+			return hh.Verdict{Skip: skip}
+		}
+		if bad != "" {
+			return hh.Fail("a node's own coercer and its neighbours' default coercion: %s", bad)
+		}
+		with, without := 0, 0
+		c.Root.Walk(func(n *model.Node) {
+			if model.IsPrimitive(n.Kind) || n.Kind == model.KSlice {
+				if n.Coercer != "" {
+					with++
+				} else {
+					without++
+				}
+			}
+		})
+		return hh.Verdict{Nontrivial: with > 0 && without > 0}
+	})
 }
 
 // ---- WithCoercer locality (finite catalogue) ----
